@@ -191,32 +191,33 @@ theorem reply_context_length (cfg : Cfg) (s : Srv) (f : Frame) (r : ReplyFrame)
 
 /-! ## supported services: reply bit inside the same framing -/
 
-/-- the request can be delivered: acceptable route path, Unconnected Send (if any) addressed to a Connection
-Manager, and the request's own path designates an existing Object -/
-def routable (cfg : Cfg) (d : Dev) (w : Wrap) (c : Cip) : Bool :=
-  routeAccepts cfg.route w && usendToCM w && (cmTarget d c.path).isSome
+/-- the request can be delivered: acceptable route path, and the Unconnected Send (if any) is addressed to a
+Connection Manager.  (The request's own path need not designate anything that exists: an unknown Tag or Object is
+answered by the Message Router with a CIP failure status inside a normal reply -- /repo e94e54f.) -/
+def routable (cfg : Cfg) (w : Wrap) : Bool :=
+  routeAccepts cfg.route w && usendToCM w
 
 /-- **Service bit.**  A routable request whose reply can be produced is answered by one frame with the request's
 own status field (0), whose payload is the request's interface handle and timeout followed by the item list
 [null address, unconnected data], and the data item starts with the request's service code with bit 0x80 set. -/
 theorem service_bit (cfg : Cfg) (s : Srv) (f : Frame) (u : Bool) (i t : Nat) (w : Wrap) (r : Req) (raw : Bytes)
     (d' : Dev) (bs : Bytes) (hb : f.body = .send u i t w (.req r raw))
-    (hr : routable cfg s.dev w (.req r raw) = true) (he : exec s.dev r = (d', some bs)) :
+    (hr : routable cfg w = true) (he : exec s.dev r = (d', some bs)) :
     process cfg s f = ({ s with dev := d' },
       .reply (echo f f.hdr.status (Bytes.le 4 i ++ Bytes.le 2 t ++ cpfEncode [(0, []), (Generated.cpfUnconnected, bs)])))
     ∧ bs.head? = some (reqService r ||| 0x80) := by
-  simp only [routable, Bool.and_eq_true, Option.isSome_iff_exists] at hr
-  obtain ⟨⟨h1, h2⟩, tgt, h3⟩ := hr
+  simp only [routable, Bool.and_eq_true] at hr
+  obtain ⟨h1, h2⟩ := hr
   refine ⟨?_, exec_head he⟩
-  simp [process, processWith, hb, h1, h2, cmRequest, h3, he, sendFraming]
+  simp [process, processWith, hb, h1, h2, cmRequest, he, sendFraming]
 
 /-- **Unsupported or unroutable.**  A SendRRData request that cannot be delivered (refused route path, Unconnected
-Send to something that is not a Connection Manager, unknown target Object), whose service no Object parses, or
+Send to something that is not a Connection Manager), whose service no Object parses, or
 whose reply cannot be produced, is answered by exactly one frame: no payload, non-zero status, same command,
 context, session handle and options -- and the session ends there. -/
 theorem unsupported_nonzero (cfg : Cfg) (s : Srv) (f : Frame) (u : Bool) (i t : Nat) (w : Wrap) (c : Cip)
     (rest : List Frame) (hb : f.body = .send u i t w c)
-    (h : routable cfg s.dev w c = false ∨ (∃ code p raw, c = .unknown code p raw)
+    (h : routable cfg w = false ∨ (∃ code p raw, c = .unknown code p raw)
           ∨ (∃ r raw, c = .req r raw ∧ (exec s.dev r).2 = none)) :
     (process cfg s f).2 = .reply (echo f (failStatus f.hdr.status) []) ∧
     failStatus f.hdr.status ≠ 0 ∧
@@ -228,19 +229,16 @@ theorem unsupported_nonzero (cfg : Cfg) (s : Srv) (f : Frame) (u : Bool) (i t : 
     by_cases h1 : routeAccepts cfg.route w = true
     · by_cases h2 : usendToCM w = true
       · simp only [h1, h2, Bool.not_true, Bool.false_eq_true, ite_false]
-        cases h3 : cmTarget s.dev c.path with
-        | none => simp [cmRequest, h3, refuse]
-        | some tgt =>
-          rcases h with h | ⟨code, p, raw, rfl⟩ | ⟨r, raw, rfl, he⟩
-          · simp [routable, h1, h2, h3] at h
-          · simp [cmRequest, h3, refuse]
-          · simp only [cmRequest, h3]
-            cases hx : exec s.dev r with
-            | mk d' o =>
-              rw [hx] at he
-              simp only at he
-              subst he
-              simp [refuse]
+        rcases h with h | ⟨code, p, raw, rfl⟩ | ⟨r, raw, rfl, he⟩
+        · simp [routable, h1, h2] at h
+        · simp [cmRequest, refuse]
+        · simp only [cmRequest]
+          cases hx : exec s.dev r with
+          | mk d' o =>
+            rw [hx] at he
+            simp only at he
+            subst he
+            simp [refuse]
       · simp [h1, h2, refuse]
     · simp [h1, refuse]
   refine ⟨key, hne, ?_⟩
@@ -253,13 +251,13 @@ theorem unsupported_nonzero (cfg : Cfg) (s : Srv) (f : Frame) (u : Bool) (i t : 
   simp [echo, hne]
 
 /-- **Failing tag requests are still answered in full.**  On a well-formed device (`Dev.WF`, the invariant of C05)
-a routable Read/Write Tag [Fragmented] request -- valid, or failing with any CIP status: unknown attribute, range,
-type mismatch -- is always answered by the full frame of `service_bit` (its reply can always be produced), and the
+a routable Read/Write Tag [Fragmented] request -- valid, or failing with any CIP status: unknown Tag or Object
+(0x05), unknown attribute, range, type mismatch -- is always answered by the full frame of `service_bit` (its reply can always be produced), and the
 device stays well-formed, so the same holds for every later request of the session. -/
 theorem tag_request_answered (cfg : Cfg) (s : Srv) (hwf : s.dev.WF) (f : Frame) (u : Bool) (i t : Nat) (w : Wrap)
     (sreq : Simple) (raw : Bytes) (hs : isTagService sreq = true)
     (hb : f.body = .send u i t w (.req (.simple sreq) raw))
-    (hr : routable cfg s.dev w (.req (.simple sreq) raw) = true) :
+    (hr : routable cfg w = true) :
     ∃ bs, (process cfg s f).2 = .reply (echo f f.hdr.status (sendFraming i t bs))
       ∧ bs.head? = some (simpleService sreq ||| 0x80) ∧ (process cfg s f).1.dev.WF := by
   obtain ⟨hwf', bs, hbs⟩ := execSimple_preserves_wf_tag s.dev hwf sreq (by cases sreq <;> simp_all [isTagService])
@@ -377,7 +375,7 @@ example : (serve {} demoSrv demoFrames).consumed = 5
     ∧ (serve {} demoSrv demoFrames).end = .closed := by decide +kernel
 
 /-- hypotheses of `service_bit` are satisfiable (the read above) -/
-example : routable {} demoDev (.usend 6 1 5 157 [(1, 0)]) readA = true
+example : routable {} (.usend 6 1 5 157 [(1, 0)]) = true
     ∧ (exec demoDev (.simple (.readTag [.symbolic "A"] 2))).2 = some [0xcc, 0, 0, 0, 0xc3, 0, 7, 0, 8, 0] := by
   decide +kernel
 
@@ -396,9 +394,17 @@ example : demoDev.WF := by
     · simp at h
   · simp at h
 
-/-- hypotheses of `unsupported_nonzero`: a route path the personality refuses; an unknown tag -/
-example : routable { route := .only [(1, 0)] } demoDev (.usend 6 1 5 157 [(1, 1)]) readA = false
-    ∧ routable {} demoDev .direct (.req (.simple (.readTag [.symbolic "nosuch"] 1)) []) = false := by decide +kernel
+/-- hypotheses of `unsupported_nonzero`: a route path the personality refuses; an Unconnected Send to @2/1 -/
+example : routable { route := .only [(1, 0)] } (.usend 6 1 5 157 [(1, 1)]) = false
+    ∧ routable {} (.usend 2 1 5 157 []) = false := by decide +kernel
+
+/-- an unknown Tag is a supported service with a CIP failure status: full reply (0xcc, status 0x05 + one extended
+status word 0), encapsulation status 0, and the session goes on to serve the next request -/
+example : (serve {} demoSrv
+      [ { hdr := { session := 9, context := ctx 7 },
+          body := .send false 0 5 .direct (.req (.simple (.readTag [.symbolic "nosuch"] 1)) []) }, readFrame ]).replies.map
+        (fun r => (r.status, r.payload.drop 16)) = [(0, [0xcc, 0, 5, 1, 0, 0]), (0, [0xcc, 0, 0, 0, 0xc3, 0, 7, 0, 8, 0])] := by
+  decide +kernel
 
 /-- batches: [register, read] then [write] then the rest = all at once (instance of `pipelining_irrelevant`) -/
 example : serveBatches {} demoSrv [demoFrames.take 2, [], (demoFrames.drop 2).take 1, demoFrames.drop 3]
